@@ -65,6 +65,13 @@ def rule_sets(tier):
             for sends in SINGLES + PAIRS:
                 for b in ((1, 2) if (len(sends) == 1 or tier == "thorough") else (1,)):
                     out.append((True, (srule(x, ph, prov, sends, b),)))
+    # identical nested sends: the same event with the same arguments sent twice (or three times)
+    # from one callback must be processed as often as it was sent
+    for (x, ph) in XP:
+        for ev in "abc":
+            for times in (2, 3):
+                key, val = rule(x, ph, "sm", (ev,) * times, 1)
+                out.append((False, ((key, val + ("same",)),)))
     sbase = [srule(x, ph, "sm", s, 1) for (x, ph) in XP_SPARSE for s in SINGLES]
     for r1, r2 in itertools.combinations(sbase, 2):
         if not _conflict(r1, r2):
@@ -122,7 +129,7 @@ def run_scenario(rules, hist, cfg, guarded=False, vals=None, sparse=False):
 
 
 def sc_json(rules, hist, cfg, extra=None):
-    d = {"rules": [[list(c), x, list(s), b] for ((c, x), (s, b)) in rules],
+    d = {"rules": [[list(c), x, list(r[0]), r[1]] + list(r[2:]) for ((c, x), r) in rules],
          "history": list(hist), "cfg": list(cfg)}
     if extra:
         d.update(extra)
@@ -154,7 +161,7 @@ def worker(block):
                     res.stats["transitions"] += p.steps
                     n_nested = len(p.ref.nested_returns)
                     res.hist[f"nested_sends={min(n_nested, 6)}"] += 1
-                    if p.last[0].kind == "ok" and hist:
+                    if p.last and p.last[0].kind == "ok" and hist:
                         v = p.last[0].value
                         res.hist["last_result=" + ("None" if v is None else type(v).__name__)] += 1
                     res.stats["states"] += 1
@@ -282,6 +289,6 @@ def replay(sc):
         (x_ph, prov, n) = sc["chain"]
         msg, _ = run_chain(tuple(x_ph), prov, n, cfg)
         return msg
-    rules = [((tuple(c), x), (tuple(s), b)) for c, x, s, b in sc["rules"]]
+    rules = [((tuple(r[0]), r[1]), (tuple(r[2]), r[3]) + tuple(r[4:])) for r in sc["rules"]]
     msg, _ = run_scenario(rules, sc["history"], cfg, sparse=sc.get("sparse", False))
     return msg
